@@ -311,7 +311,9 @@ func (m *ReconcilePod) podDelete(ctx context.Context, namespacedName client.Obje
 	}
 	if haveFixedIP {
 		// for fixed ip , update podENI status to v1beta1.ENIPhaseDetaching
-		if prePodENI.Status.Phase == v1beta1.ENIPhaseDetaching {
+		// already detached: nothing to do. Marking it Detaching again makes every later delivery of the
+		// pod's deletion detach the eni anew.
+		if prePodENI.Status.Phase == v1beta1.ENIPhaseDetaching || prePodENI.Status.Phase == v1beta1.ENIPhaseUnbind {
 			return reconcile.Result{}, nil
 		}
 		prePodENICopy := prePodENI.DeepCopy()
